@@ -905,7 +905,7 @@ Qed.
 (* ---------- short strings ---------- *)
 
 Lemma scan_escape_letter st1 c v st2 :
-  esc_value c = Some v -> next st1 = (c, st2) -> scan_escape st1 = ([v], st2).
+  esc_value c = Some v -> next st1 = (c, st2) -> scan_escape st1 = Ok [v] st2.
 Proof.
   unfold scan_escape, esc_value. intros H N. rewrite N.
   repeat (match goal with
@@ -945,7 +945,7 @@ Lemma scan_escape_dec st1 d1 d2 d3 R o :
   is_digit_val d1 = true -> is_digit_val d2 = true -> is_digit_val d3 = true ->
   (d1 * 10 + d2) * 10 + d3 <= 255 ->
   at_ st1 (48 + d1 :: 48 + d2 :: 48 + d3 :: R) o ->
-  exists st4, scan_escape st1 = ([(d1 * 10 + d2) * 10 + d3], st4) /\ at_ st4 R (o + 3).
+  exists st4, scan_escape st1 = Ok [(d1 * 10 + d2) * 10 + d3] st4 /\ at_ st4 R (o + 3).
 Proof.
   unfold is_digit_val. intros H1 H2 H3 Hv Hat.
   destruct (next_plain _ _ _ _ Hat ltac:(unfold is_nl; lia) ltac:(unfold byteb; lia)) as (s2 & N1 & A2 & _).
@@ -959,9 +959,10 @@ Proof.
   replace (is_dec (48 + d1)) with true by (unfold is_dec; lia).
   rewrite (peek_at _ _ _ _ A2). replace (is_dec (48 + d2)) with true by (unfold is_dec; lia).
   rewrite N2. rewrite (peek_at _ _ _ _ A3). replace (is_dec (48 + d3)) with true by (unfold is_dec; lia).
-  rewrite N3. f_equal. f_equal. unfold wc.
+  rewrite N3. unfold esc_decimal.
   replace (((48 + d1 - 48) * 10 + (48 + d2 - 48)) * 10 + (48 + d3 - 48)) with ((d1 * 10 + d2) * 10 + d3) by lia.
-  apply Z.mod_small. lia.
+  replace (255 <? (d1 * 10 + d2) * 10 + d3) with false by lia.
+  f_equal. f_equal. unfold wc. apply Z.mod_small. lia.
 Qed.
 
 Lemma sitem_head_not_nl q i r : sitem_ok q i = true -> is_nl (head_or_eof (sitem_bytes i ++ r)) = false.
@@ -1045,7 +1046,7 @@ Proof.
       destruct (next_nl_bytes _ _ _ _ A1 Hhd) as (s2 & N2 & A2).
       cbn [scan_string_loop].
       replace (92 =? q) with false by lia. cbn [Z.eqb Z.ltb Pos.eqb orb Z.compare].
-      assert (Ee : scan_escape s1 = ([10], s2)) by (unfold scan_escape; rewrite N2; reflexivity).
+      assert (Ee : scan_escape s1 = Ok [10] s2) by (unfold scan_escape; rewrite N2; reflexivity).
       rewrite Ee.
       destruct (CONT s2 (o + 1 + len (nl_bytes k)) (acc ++ [10]) A2
                   ltac:(simpl in Hf; rewrite app_length in Hf; destruct k; simpl in Hf; lia)) as (st' & E & A').
